@@ -1,0 +1,24 @@
+//go:build verif
+
+// Contracts for the deductive verification harness in /verif (govc).
+// This file contains comments only; it is compiled only under the build tag "verif".
+package sftp
+
+//@ func toFileMode
+//@   property C17
+//@   ensures uint32(result) & 0777 == mode & 0777
+//@   ensures mode & 0170000 == 0040000 ==> result & os.ModeType == os.ModeDir
+//@   ensures mode & 0170000 == 0100000 ==> result & os.ModeType == 0
+//@   ensures mode & 0170000 == 0120000 ==> result & os.ModeType == os.ModeSymlink
+//@   ensures mode & 0170000 == 0010000 ==> result & os.ModeType == os.ModeNamedPipe
+//@   ensures mode & 0170000 == 0140000 ==> result & os.ModeType == os.ModeSocket
+//@   ensures mode & 0170000 == 0060000 ==> result & os.ModeType == os.ModeDevice
+//@   ensures mode & 0170000 == 0020000 ==> result & os.ModeType == os.ModeDevice | os.ModeCharDevice
+//@   ensures (mode & 04000 != 0) <==> (result & os.ModeSetuid != 0)
+//@   ensures (mode & 02000 != 0) <==> (result & os.ModeSetgid != 0)
+//@   ensures (mode & 01000 != 0) <==> (result & os.ModeSticky != 0)
+//@   ensures result & ^(os.ModeType | os.ModePerm | os.ModeSetuid | os.ModeSetgid | os.ModeSticky) == 0
+
+//@ func isRegular
+//@   property C17
+//@   ensures result <==> (mode & 0170000 == 0100000)
